@@ -29,6 +29,9 @@ pub enum Case {
     Finish { len: usize },
     /// finish must not succeed while the peer cannot acknowledge
     FinishPartition { len: usize, block_data: bool },
+    /// as above, but the FIN was already queued by an earlier, abandoned attempt: a finish()
+    /// future dropped by a timeout (via = 0), or tokio's AsyncWriteExt::shutdown (via = 1)
+    FinishReissued { len: usize, block_data: bool, via: u8 },
 }
 
 #[derive(Serialize, Deserialize, Clone, Debug)]
@@ -60,11 +63,12 @@ pub fn gen_plan(seed: u64, index: usize, faulty: bool) -> Plan {
     }
     let bidi = rng.coin();
     let code = if rng.chance_pm(700) { CODES[index % CODES.len()] } else { rng.range(0, (1 << 62) - 1) };
-    let case = match rng.below(if faulty { 3 } else { 4 }) {
+    let case = match rng.below(if faulty { 3 } else { 5 }) {
         0 => Case::Reset { pre: *rng.pick(&[0usize, 0, 1, 100, 5000, 50_000]), finish_first: rng.chance_pm(300), settle_before_reset: rng.coin(), code },
         1 => Case::Stop { after: *rng.pick(&[0usize, 0, 1, 100, 3000]), first_part: *rng.pick(&[1usize, 100, 3000, 20_000]), second_part: *rng.pick(&[1usize, 100, 5000]), code },
         2 => Case::Finish { len: *rng.pick(&[0usize, 1, 1000, 70_000]) },
-        _ => Case::FinishPartition { len: *rng.pick(&[0usize, 1, 1000, 20_000]), block_data: rng.coin() },
+        3 => Case::FinishPartition { len: *rng.pick(&[0usize, 1, 1000, 20_000]), block_data: rng.coin() },
+        _ => Case::FinishReissued { len: *rng.pick(&[0usize, 1, 1000, 20_000]), block_data: rng.coin(), via: rng.below(2) as u8 },
     };
     Plan { seed, rt, net, opener_is_client: rng.coin(), bidi, back: bidi && rng.coin(), case }
 }
@@ -237,6 +241,53 @@ pub fn execute(plan: &Plan, trace: bool) -> Exec {
                     other => obs.lock().unwrap().notes.push(format!("stopped() after finish: {other:?}")),
                 }
             }
+            Case::FinishReissued { len, block_data, via } => {
+                let data = pattern(plan.seed, len);
+                let o2 = obs.clone();
+                let rt = tokio::spawn(async move {
+                    read_to_end(&mut reader, &o2, None).await;
+                });
+                net.quiesce(Duration::from_millis(20), Duration::from_secs(5)).await;
+                if block_data {
+                    net.set_block(&wsock, &rsock, true);
+                } else {
+                    net.set_block(&rsock, &wsock, true);
+                }
+                let _ = tokio::time::timeout(Duration::from_secs(5), writer.write_all(&data)).await;
+                // first attempt, abandoned: the FIN is queued, nothing is acknowledged
+                if via == 0 {
+                    let r = tokio::time::timeout(Duration::from_millis(150), writer.finish()).await;
+                    obs.lock().unwrap().notes.push(format!("first-finish: {}", if r.is_err() { "dropped while pending".to_string() } else { format!("EARLY-FINISH {r:?}") }));
+                } else {
+                    let r = tokio::time::timeout(Duration::from_millis(150), tokio::io::AsyncWriteExt::shutdown(&mut writer)).await;
+                    obs.lock().unwrap().notes.push(format!("shutdown: {r:?}"));
+                }
+                let mut fin: std::pin::Pin<Box<dyn std::future::Future<Output = Result<(), StreamWriteError>> + Send + '_>> = Box::pin(writer.finish());
+                let mut early = false;
+                match tokio::time::timeout(Duration::from_secs(8), &mut fin).await {
+                    Ok(r) => {
+                        early = true;
+                        obs.lock().unwrap().notes.push(format!("EARLY-FINISH (re-issued) {r:?}"))
+                    }
+                    Err(_) => obs.lock().unwrap().notes.push("re-issued finish pending during partition".into()),
+                }
+                if block_data {
+                    net.set_block(&wsock, &rsock, false);
+                } else {
+                    net.set_block(&rsock, &wsock, false);
+                }
+                if early {
+                    // the future has completed; do not poll it again
+                    fin = Box::pin(std::future::ready(Ok(())));
+                }
+                match tokio::time::timeout(Duration::from_secs(60), &mut fin).await {
+                    Ok(Ok(())) => obs.lock().unwrap().writer_oks.push("finish-after-heal".into()),
+                    Ok(Err(e)) => obs.lock().unwrap().writer_errors.push(("finish-after-heal".into(), e)),
+                    Err(_) => obs.lock().unwrap().notes.push("finish pending 60 s after heal".into()),
+                }
+                drop(fin);
+                let _ = tokio::time::timeout(Duration::from_secs(60), rt).await;
+            }
             Case::FinishPartition { len, block_data } => {
                 let data = pattern(plan.seed, len);
                 let o2 = obs.clone();
@@ -250,15 +301,22 @@ pub fn execute(plan: &Plan, trace: bool) -> Exec {
                     net.set_block(&rsock, &wsock, true);
                 }
                 let _ = tokio::time::timeout(Duration::from_secs(5), writer.write_all(&data)).await;
-                let mut fin = Box::pin(writer.finish());
+                let mut fin: std::pin::Pin<Box<dyn std::future::Future<Output = Result<(), StreamWriteError>> + Send + '_>> = Box::pin(writer.finish());
+                let mut early = false;
                 match tokio::time::timeout(Duration::from_secs(10), &mut fin).await {
-                    Ok(r) => obs.lock().unwrap().notes.push(format!("EARLY-FINISH {r:?}")),
+                    Ok(r) => {
+                        early = true;
+                        obs.lock().unwrap().notes.push(format!("EARLY-FINISH {r:?}"))
+                    }
                     Err(_) => obs.lock().unwrap().notes.push("finish pending during partition".into()),
                 }
                 if block_data {
                     net.set_block(&wsock, &rsock, false);
                 } else {
                     net.set_block(&rsock, &wsock, false);
+                }
+                if early {
+                    fin = Box::pin(std::future::ready(Ok(())));
                 }
                 match tokio::time::timeout(Duration::from_secs(60), &mut fin).await {
                     Ok(Ok(())) => obs.lock().unwrap().writer_oks.push("finish-after-heal".into()),
@@ -359,8 +417,8 @@ pub fn execute(plan: &Plan, trace: bool) -> Exec {
             }
             ex.probe("finish_seen", 1);
         }
-        Case::FinishPartition { len, block_data } => {
-            if let Some(n) = o.notes.iter().find(|n| n.starts_with("EARLY-FINISH")) {
+        Case::FinishPartition { len, block_data } | Case::FinishReissued { len, block_data, .. } => {
+            if let Some(n) = o.notes.iter().find(|n| n.contains("EARLY-FINISH")) {
                 ex.violation(
                     "C06/finish-before-ack",
                     format!("{role}: finish() returned while the {} direction was partitioned (nothing could be acknowledged): {n}", if *block_data { "data" } else { "acknowledgement" }),
@@ -425,7 +483,7 @@ pub fn def() -> PropertyDef {
     PropertyDef {
         id: "C06",
         scenarios: vec![Box::new(Typed(C06E2E { faulty: false })), Box::new(Typed(C06E2E { faulty: true }))],
-        rule: "Each run: real client and server, one stream in a generated role (client/server-opened x uni/bidi x direction), codes cycling through the boundaries of every varint length (0, 63, 64, 16383, 16384, 2^30-1, 2^30, 2^62-2, 2^62-1) and random 62-bit values, one of four histories: (reset) write 0..50 kB, optionally begin finishing, optionally let the network settle, reset(c) — the reader must see a prefix of the written bytes and then Reset(c), or, only if finishing began first, possibly everything and end-of-stream; (stop) the reader reads 0..3000 bytes and stops with c while the writer writes — every writer error must be Stopped(c), and once the stop has certainly arrived a further write, stopped(), finish() and stopped() again must all report Stopped(c); (finish) all bytes then end-of-stream, finish Ok, stopped() afterwards = Closed; (finish under partition, clean batch only) with the data or the acknowledgement direction blocked finish() must still be pending after 10 s simulated and complete Ok after the heal. Fault batch: loss / duplication / reordering. Non-trivial = the history ran to its observation point (and a fault fired in the fault batch); distinct = distinct plan hashes.",
+        rule: "Each run: real client and server, one stream in a generated role (client/server-opened x uni/bidi x direction), codes cycling through the boundaries of every varint length (0, 63, 64, 16383, 16384, 2^30-1, 2^30, 2^62-2, 2^62-1) and random 62-bit values, one of four histories: (reset) write 0..50 kB, optionally begin finishing, optionally let the network settle, reset(c) — the reader must see a prefix of the written bytes and then Reset(c), or, only if finishing began first, possibly everything and end-of-stream; (stop) the reader reads 0..3000 bytes and stops with c while the writer writes — every writer error must be Stopped(c), and once the stop has certainly arrived a further write, stopped(), finish() and stopped() again must all report Stopped(c); (finish) all bytes then end-of-stream, finish Ok, stopped() afterwards = Closed; (finish under partition, clean batch only) with the data or the acknowledgement direction blocked finish() must still be pending after 10 s simulated and complete Ok after the heal - also when the FIN had already been queued by an earlier finish() future that was dropped by a timeout, or by tokio's AsyncWriteExt::shutdown. Fault batch: loss / duplication / reordering. Non-trivial = the history ran to its observation point (and a fault fired in the fault batch); distinct = distinct plan hashes.",
         assumptions: vec![
             "after stop the model allows every outcome QUIC allows for writes racing the signal; only writes issued after network quiescence are required to fail",
             "quinn/rustls/tokio executed for real but trusted; current-thread runtime",
